@@ -133,6 +133,9 @@ fn runtime() -> Runtime<NoCtx> {
         fn pure_char(x: char) -> char { ev(format!("pure_char {:#x}", x as u32)); x }
 
         /// seven arguments of mixed width (argument position / register assignment)
+        // zero-sized `()` parameters take no machine argument: the ones after them must still arrive
+        fn after_unit(_u: (), x: u32) -> u32 { ev(format!("after_unit {:#x}", x)); x }
+        fn around_unit(x: u32, _u: (), y: u32) -> u32 { ev(format!("around_unit {:#x} {:#x}", x, y)); x.wrapping_sub(y) }
         // registered functions that build an Option / Result on the Rust side
         fn opt_of(x: u32) -> Option<u32> { ev(format!("opt_of {:#x}", x)); if x & 1 == 1 { Some(x ^ 0x5A5A) } else { None } }
         fn res_of(x: u32) -> Result<u32, i32> { ev(format!("res_of {:#x}", x)); if x < 0x8000_0000 { Ok(x.wrapping_add(7)) } else { Err((x as i32).wrapping_neg()) } }
